@@ -40,7 +40,7 @@ Match(obs, s) ==
 ObsOK(obs, stack, o) ==
   /\ obs.status = 200 /\ obs.flat
   /\ DOMAIN obs.px = Regions(o)
-  /\ \A r \in Regions(o) : Close(obs.px[r], FullPx(stack, o, r))
+  /\ \A r \in Regions(o) : CloseT(obs.px[r], FullPx(stack, o, r), TolOf(stack))
 
 TraceInit ==
   /\ tid \in 1 .. N
